@@ -67,6 +67,68 @@ def size_class(n, N):
     return "nongood-length-oddN" if N % 2 else "nongood-length-evenN"
 
 
+# ---- independent references for what MatchedFilter derives from its arguments (not read back from the implementation) ----------
+FWHM_TO_SIGMA = 1.0 / (2.0 * np.sqrt(2.0 * np.log(2.0)))       # gaussian: sigma = FWHM / 2.3548...
+IQR_TO_SIGMA = 1.3489795003921634                               # 2 * Phi^-1(0.75)
+MAD_TO_SIGMA = 1.482602218505602                                # 1 / Phi^-1(0.75)
+LOCS = ("median", "mean")
+# diffcov is not drawn: sqrt|cov| of a signed sum is ill-conditioned (on noise + pulse data the sum cancels to 1e-3 of its terms), so
+# the float32 rounding of a x + b alone moves its value, and with it every response, by 1e-3 relative; C15 exempts such lanes from
+# the float32 Z-score relation.  (R.assume)
+SCALES = ("iqr", "mad", "doublemad", "biweight", "qn", "sn", "gapper", "std")
+
+
+def ref_loc_scale(x64, loc, scl):
+    """float64 location and scale from their textbook definitions, for the estimators that have a one-line one (the others are
+    C15's subject: for them only equivariance is demanded here, through the invariance cases); None when there is none"""
+    if loc == "median":
+        L = float(np.median(x64))
+    elif loc == "mean":
+        L = float(x64.mean())
+    elif loc == "norm":
+        L = 0.0
+    else:
+        return None
+    if scl == "iqr":
+        q1, q3 = np.percentile(x64, [25, 75])
+        S = float(q3 - q1) / IQR_TO_SIGMA
+    elif scl == "mad":
+        S = float(np.median(np.abs(x64 - np.median(x64)))) * MAD_TO_SIGMA
+    elif scl == "std":
+        S = float(x64.std())
+    elif scl == "norm":
+        S = 1.0
+    else:
+        return None
+    return L, S
+
+
+def template_shape(kind, w):
+    """the template of nominal width w from its definition: boxcar = w ones; gaussian of FWHM w / lorentzian of FWHM w sampled
+    at the integers -m .. m, m = ceil(3.5 * sigma) resp. ceil(3.5 * gamma), peak value 1"""
+    if kind == "boxcar":
+        return np.ones(int(w))
+    h = FWHM_TO_SIGMA * float(w) if kind == "gaussian" else float(w) / 2
+    m = int(np.ceil(3.5 * h))
+    xs = np.arange(-m, m + 1, dtype=np.float64)
+    return np.exp(-0.5 * xs ** 2 / h ** 2) if kind == "gaussian" else h ** 2 / (xs ** 2 + h ** 2)
+
+
+def width_ladder(kind, nbins_max, spacing):
+    """the widths of the bank: boxcar 1, then max(w + 1, floor(spacing * w)) while <= nbins_max; otherwise
+    ceil(ln nbins_max / ln spacing) + 1 widths spaced geometrically from 1 to nbins_max"""
+    if kind == "boxcar":
+        ws = [1]
+        while ws[-1] < nbins_max:
+            nxt = int(max(ws[-1] + 1, spacing * ws[-1]))
+            if nxt > nbins_max:
+                break
+            ws.append(nxt)
+        return np.array(ws, dtype=np.float64)
+    npts = int(np.ceil(np.log(nbins_max) / np.log(spacing))) + 1
+    return np.geomspace(1, nbins_max, npts)
+
+
 def run(R: vlib.Run):
     from numba import typed
     from sigpyproc.core import kernels
@@ -74,11 +136,16 @@ def run(R: vlib.Run):
 
     quick = R.tier == "quick"
     rng = R.rng
-    R.rule = ("data lengths n: every n in 4..%d plus selected larger good / bad / prime / odd-good sizes; template kinds boxcar, gaussian, "
+    R.rule = ("data lengths n: 1, 2, 3 (boxcar), every n in 4..%d plus selected larger good / bad / prime / odd-good sizes; template kinds boxcar, gaussian, "
               "lorentzian; bank (nbins_max, spacing_factor) varied; noise + pulse at positions {0, 1, n-w, n-1, random}; offsets and "
-              "positive scalings; noiseless boxcars of every bank width at the edges and inside.  A case = one MatchedFilter run compared "
-              "value by value with the float64 direct sums; non-trivial = at least 2 templates and n >= 8; distinct = distinct "
-              "(check, n, kind, bank, position / factor).  Kernel on general banks: 3..6 templates of pairwise different lengths (boxcar, "
+              "positive scalings (every transformed run is itself compared value by value, and its rows with the rows of the original); "
+              "for n divisible by 5 a second run with a drawn (location, scale) estimator pair out of 2 x 8 (all but diffcov), for n divisible by 10 "
+              "('norm', 'norm'); noiseless boxcars of every bank width at the edges and inside, for the bank (min(32, n), 1.5) and, for "
+              "n <= 40 or n divisible by 7, the banks (n, 1.0) = every width, (min(n, 40), 1.2), (n, 2.0) with an offset.  A case = one "
+              "MatchedFilter run compared value by value with the float64 direct sums, its Z-scores with (x - loc) / scale from the "
+              "textbook definitions (median / mean, iqr / mad / std), its templates and width ladder with their closed forms, on_pulse "
+              "with the clipped interval; non-trivial = at least 2 templates and n >= 8; distinct = distinct "
+              "(check, n, kind, bank, position / factor, estimators).  Kernel on general banks: 3..6 templates of pairwise different lengths (boxcar, "
               "peaked, free-form; any reference bin) in ascending / descending / shuffled / repeated order and alone" % (72 if quick else 260))
     R.trusted += ["Coq 8.16.1 kernel + vm_compute", "tools/py2coq/gen_c12.py + py2coq.py (Python ast -> Gallina) and Model/C12_np.v, "
                   "Model/C13_np.v (NumPy semantics of roll, [::-1], prefix assignment, argmax, unravel_index)",
@@ -87,7 +154,20 @@ def run(R: vlib.Run):
                  "np.mean and division by the norm in normalize_template are external operations (norm_ops); their float32 evaluation is not modelled",
                  "equivariance of the location / scale estimators (estimate_zscore; property C15) is a hypothesis of the invariance theorem; "
                  "here invariance is tested end to end",
-                 "boxcar recovery: only the Cauchy-Schwarz core is a theorem; the clause itself is tested (all bank widths x edge / interior positions)"]
+                 "boxcar recovery: only the Cauchy-Schwarz core is a theorem; the clause itself is tested (all bank widths x edge / interior positions)",
+                 "invariance of the S/N under a positive factor is demanded where the scale estimate of the data is not zero: when it is exactly 0 "
+                 "(noiseless pulse narrower than a quarter of the data under iqr, more than half of the samples tied) estimate_zscore falls back "
+                 "to unit scale by design (C15) and the S/N is proportional to the factor, peak bin and width staying unchanged "
+                 "(findings.d/C13.md, 'not a defect'); the invariance cases therefore use continuous noise, and the Z-score reference is "
+                 "compared only where the reference scale exceeds 1e-6 of the largest deviation",
+                 "location / scale estimators without a one-line definition (doublemad, biweight, qn, sn, gapper) are taken from "
+                 "zscores.data as they are (their values are C15's subject); for them only the consequences stated here are demanded",
+                 "scale_method='doublemad' is drawn for the response and recovery clauses but not for the offset / factor cases: its per-sample scale "
+                 "jumps at the median, so a sample that the float32 rounding of a x + b moves onto the median changes its Z-score by the ratio of "
+                 "the lower and upper scales (n = 135, loc mean, a = 1e-3, b = 40: one Z-score -0.95 -> -0.63); no float32 bound exists there",
+                 "scale_method='diffcov' is not among the estimator pairs drawn: sqrt|cov| of a signed sum that cancels to ~1e-3 of its terms on "
+                 "noise + pulse data, so the float32 rounding of a x + b by itself changes the scale, hence the S/N, by ~3e-3 relative "
+                 "(n = 40, a = 1e-3, b = -2: 164.06 -> 163.64); C15 exempts such ill-conditioned lanes from the float32 Z-score relation"]
     R.prove("Props/C13.v")
 
     worst = {}
@@ -103,22 +183,42 @@ def run(R: vlib.Run):
         return [round(float(v), 6) for v in x] if len(x) <= 24 else f"float32 array of length {len(x)} (regenerate from numpy_subseed with the recipe in tools/harness/props/c13.py)"
 
     # ------------------------------------------------------------------------------------------------------------
-    def check_run(n, N, kind, nbins_max, spacing, x, sub, what):
-        """one MatchedFilter run: responses, arg-max.  returns mf or None"""
+    def est_kw(loc, scl):
+        """the default estimators are requested by NOT passing them (so the defaults themselves are under test)"""
+        return {} if (loc, scl) == ("median", "iqr") else {"loc_method": loc, "scale_method": scl}
+
+    def check_mf(mf, n, N, kind, nbins_max, spacing, x, base, loc="median", scl="iqr"):
+        """everything the property fixes about one finished MatchedFilter run on the float32 series x.  returns True unless the
+        shape of convs is wrong"""
         cls = size_class(n, N)
-        base = {"check": what, "n": n, "good_size": N, "temp_kind": kind, "nbins_max": nbins_max, "spacing_factor": spacing,
-                "numpy_subseed": sub, "data": small(x)}
-        try:
-            mf = MatchedFilter(x, temp_kind=kind, nbins_max=nbins_max, spacing_factor=spacing)
-        except Exception as e:  # noqa: BLE001
-            R.fail(f"matched-filter-raises-{cls}", f"MatchedFilter raised {type(e).__name__}: {str(e)[:100]}", base)
-            return None
         z = mf.zscores.data
         temps = bank_of(mf)
         nz = float(np.linalg.norm(z.astype(np.float64)))
         if mf.convs.shape != (len(temps), n):
             R.fail("convs-shape", "convs is not (ntemps, nbins)", dict(base, shape=list(mf.convs.shape)))
-            return None
+            return False
+        # "standardised data": (x - location) / scale, location and scale from their definitions (not read back from the run)
+        x64 = np.asarray(x, dtype=np.float32).astype(np.float64)
+        ls = ref_loc_scale(x64, loc, scl)
+        if z.shape != (n,):
+            R.fail("zscores-not-standardised", "zscores.data does not have the shape of the data", dict(base, shape=list(z.shape)))
+        elif ls is not None and ls[1] > 1e-6 * float(np.abs(x64 - ls[0]).max()):        # zero-scale fallback regime excluded (R.assume)
+            L, S = ls
+            zref = (x64 - L) / S
+            amax = float(np.abs(x64).max())
+            tolz = 4 * EPS * (1.0 + float(np.abs(zref).max()) + amax / S)
+            dz = float(np.abs(z.astype(np.float64) - zref).max())
+            note("zscore", dz / tolz if np.isfinite(dz) else 1e30, n)
+            gl = float(np.asarray(mf.zscores.loc).ravel()[0])
+            gs = float(np.asarray(mf.zscores.scale).ravel()[0])
+            if not dz <= tolz:
+                t = int(np.argmax(np.abs(z.astype(np.float64) - zref)))
+                R.fail("zscores-not-standardised", "zscores.data is not (data - location) / scale with the location and scale estimators asked for "
+                       "(default: median, iqr / 1.349)", dict(base, bin=t, got=float(z[t]), expected=float(zref[t]), loc=gl, loc_expected=L,
+                                                             scale=gs, scale_expected=S, tolerance=tolz))
+            elif not (abs(gl - L) <= 4 * EPS * (amax + S) and abs(gs - S) <= 4 * EPS * (amax + S)):
+                R.fail("zscores-not-standardised", "zscores.loc / zscores.scale are not the location / scale of the data",
+                       dict(base, loc=gl, loc_expected=L, scale=gs, scale_expected=S))
         exp = direct_responses(z, temps)
         err = np.abs(mf.convs.astype(np.float64) - exp)
         unit = EPS * (np.log2(n) + 1) * max(nz, 1e-30)
@@ -135,6 +235,23 @@ def run(R: vlib.Run):
             if not okref:
                 R.fail("template-ref-bin", "reference bin is not the start (boxcar) / the peak (gaussian, lorentzian) of the template",
                        dict(base, width=float(tt.width), ref_bin=int(tt.ref_bin)))
+        # the bank asked for: width ladder (nbins_max, spacing_factor) and, per width, the template of that kind from its closed form
+        wexp = width_ladder(kind, nbins_max, spacing)
+        wgot = np.asarray(mf.temp_widths, dtype=np.float64).ravel()
+        wbank = np.array([float(tt.width) for tt in mf.temp_bank])
+        if not (wgot.shape == wexp.shape == wbank.shape and np.allclose(wgot, wexp, rtol=1e-6, atol=0) and np.allclose(wbank, wexp, rtol=1e-6, atol=0)):
+            R.fail("bank-width-ladder", "the widths of the template bank are not the ladder of (nbins_max, spacing_factor): boxcar 1, "
+                   "max(w + 1, floor(s w)), ... <= nbins_max; otherwise ceil(ln nbins_max / ln s) + 1 widths spaced geometrically from 1 to nbins_max",
+                   dict(base, temp_widths=[float(v) for v in wgot[:64]], bank_widths=[float(v) for v in wbank[:64]], expected=[float(v) for v in wexp[:64]]))
+        for tt in mf.temp_bank:
+            sh = template_shape(kind, tt.width)
+            d = np.asarray(tt.data, dtype=np.float64)
+            if not (d.shape == sh.shape and float(np.abs(d - sh).max()) <= 1e-6):
+                R.fail("template-shape", "a template of the bank is not the shape of its kind and width (boxcar: width ones; gaussian / lorentzian "
+                       "of that FWHM, peak 1, on -m..m with m = ceil(3.5 sigma / gamma))",
+                       dict(base, width=float(tt.width), size=int(d.size), expected_size=int(sh.size),
+                            max_abs_difference=float(np.abs(d - sh).max()) if d.shape == sh.shape else None))
+                break
         # S/N, peak bin, best template = maximum of the responses and its location
         c = mf.convs
         mx = c.max()
@@ -145,27 +262,65 @@ def run(R: vlib.Run):
                    dict(base, snr=float(mf.snr), max=float(mx), reported=[int(mf._itemp), mf.peak_bin], argmax=[int(it), int(pk)]))
         if abs(float(mf.snr) - float(exp.max())) > TOL * unit:
             R.fail(f"snr-not-max-inner-product-{cls}", "snr differs from the maximum of the direct inner products", dict(base, snr=float(mf.snr), expected=float(exp.max())))
-        return mf
+        # on_pulse: the extent of the best template placed at the peak bin, clipped to the data: [peak, peak + width) for the
+        # start-referenced boxcar, peak -/+ round(width) for the peak-referenced kinds
+        bw = mf.best_temp.width
+        lo, hi = (mf.peak_bin, mf.peak_bin + int(bw)) if kind == "boxcar" else (mf.peak_bin - round(float(bw)), mf.peak_bin + round(float(bw)))
+        want = (max(0, lo), min(n, hi))
+        try:
+            got = tuple(int(v) for v in mf.on_pulse)
+        except Exception as e:  # noqa: BLE001
+            got = f"raised {type(e).__name__}"
+        if got != want:
+            R.fail("on-pulse", "on_pulse is not the extent of the best template at the peak bin, clipped to the data",
+                   dict(base, peak_bin=mf.peak_bin, best_width=float(bw), on_pulse=list(got) if isinstance(got, tuple) else got, expected=list(want)))
+        return True
+
+    def check_run(n, N, kind, nbins_max, spacing, x, sub, what, loc="median", scl="iqr"):
+        """one MatchedFilter run: Z-scores, bank, responses, arg-max, on_pulse.  returns mf or None"""
+        cls = size_class(n, N)
+        base = {"check": what, "n": n, "good_size": N, "temp_kind": kind, "nbins_max": nbins_max, "spacing_factor": spacing,
+                "numpy_subseed": sub, "data": small(x)}
+        if est_kw(loc, scl):
+            base.update(est_kw(loc, scl))
+        try:
+            mf = MatchedFilter(x, temp_kind=kind, nbins_max=nbins_max, spacing_factor=spacing, **est_kw(loc, scl))
+        except Exception as e:  # noqa: BLE001
+            R.fail(f"matched-filter-raises-{cls}", f"MatchedFilter raised {type(e).__name__}: {str(e)[:100]}", base)
+            return None
+        return mf if check_mf(mf, n, N, kind, nbins_max, spacing, x, base, loc, scl) else None
 
     # ---------------- data lengths ------------------------------------------------------------------------------------
     if quick:
-        ns = list(range(4, 73)) + [75, 81, 97, 100, 125, 127, 128, 135, 200, 243, 250, 256]
+        ns = [1, 2, 3] + list(range(4, 73)) + [75, 81, 97, 100, 125, 127, 128, 135, 200, 243, 250, 256]
     else:
-        ns = list(range(4, 261)) + [270, 375, 405, 499, 500, 512, 625, 675, 729, 1000, 1021, 1024, 1125, 2000, 2048]
+        ns = [1, 2, 3] + list(range(4, 261)) + [270, 375, 405, 499, 500, 512, 625, 675, 729, 1000, 1021, 1024, 1125, 2000, 2048]
     for n in ns:
         N = int(kernels.nb_fft_good_size(n, True))
         cls = size_class(n, N)
+        # a second (location, scale) estimator pair for every fifth length (estimators want >= 8 samples), never the default pair
+        est2 = None
+        if n >= 10 and n % 5 == 0:
+            est2 = (LOCS[rng.randrange(len(LOCS))], SCALES[rng.randrange(len(SCALES))])
+            if est2 == ("median", "iqr"):
+                est2 = ("mean", "iqr")
         for kind in ("boxcar", "gaussian", "lorentzian"):
             # largest width whose template (2 * ceil(3.5 * sigma-or-gamma) + 1 samples) still fits in the data
             lim = n if kind == "boxcar" else max([w for w in range(1, n + 1) if tmpl_len(kind, w) <= n], default=0)
             if lim < 1:
                 continue
-            banks = [(min(32, lim), 1.5)]
+            banks = [(min(32, lim), 1.5, "median", "iqr")]
             if n % 3 == 0 or not quick:
-                banks.append((max(1, min(rng.randrange(1, 41), lim)), rng.choice([1.2, 2.0, 1.35])))
-            for nbins_max, spacing in banks:
+                banks.append((max(1, min(rng.randrange(1, 41), lim)), rng.choice([1.2, 2.0, 1.35]), "median", "iqr"))
+            if est2 is not None:
+                banks.append((min(32, lim), 1.5) + est2)
+            if n >= 10 and n % 10 == 0 and kind == "boxcar":
+                banks.append((min(32, lim), 1.5, "norm", "norm"))       # data declared already standardised: z = x
+            for nbins_max, spacing, loc, scl in banks:
                 if kind != "boxcar" and spacing <= 1:
                     continue
+                default_est = (loc, scl) == ("median", "iqr")
+                ekey = () if default_est else (loc, scl)
                 sub = rng.randrange(2 ** 32)
                 g = np.random.default_rng(sub)
                 w = int(g.integers(1, max(2, min(nbins_max, n // 2) + 1)))
@@ -179,15 +334,18 @@ def run(R: vlib.Run):
                     else:
                         x[(pos + j - w // 2) % n] += amp * np.exp(-0.5 * ((j - w // 2) / max(w / 2.355, 0.5)) ** 2)
                 x = x.astype(np.float32)
-                R.case(("resp", n, kind, nbins_max, spacing, pos), nontrivial=n >= 8, regime=f"response/{kind}/{cls}",
+                R.case(("resp", n, kind, nbins_max, spacing, pos) + ekey, nontrivial=n >= 8,
+                       regime=f"response/{kind}/{cls}" if default_est else f"response/estimators/{loc}-{scl}",
                        sample={"n": n, "good_size": N, "kind": kind, "nbins_max": nbins_max, "spacing": spacing, "pulse_at": pos, "width": w}
-                       if n in (13, 50) and kind == "boxcar" else None)
-                mf = check_run(n, N, kind, nbins_max, spacing, x, sub, "response")
-                if mf is None or n < 8:
+                       if n in (13, 50) and kind == "boxcar" and default_est else None)
+                mf = check_run(n, N, kind, nbins_max, spacing, x, sub, "response", loc, scl)
+                if mf is None or n < 8 or "norm" in (loc, scl):
                     continue
+                if scl == "doublemad":
+                    continue        # per-sample scale that jumps at the median: not continuous in the data, no float32 invariance bound (R.assume)
                 # ---- invariance under x -> a x + b
                 z = mf.zscores.data.astype(np.float64)
-                s0 = float(np.asarray(mf.zscores.scale).ravel()[0])
+                s0 = float(np.asarray(mf.zscores.scale).min())          # one value, except doublemad (lower / upper scale per sample)
                 flat = np.sort(mf.convs.ravel())
                 gap = float(flat[-1] - flat[-2]) if flat.size > 1 else np.inf
                 unit = EPS * (np.log2(n) + 1) * float(np.linalg.norm(z))
@@ -198,16 +356,23 @@ def run(R: vlib.Run):
                 for a, b in trans:
                     x2 = (np.float32(a) * x + np.float32(b)).astype(np.float32)
                     key = "invariance-" + ("scale-factor-below-1e-8" if a < 1e-8 else "scale" if b == 0 else "offset" if a == 1 else "affine")
-                    R.case(("inv", n, kind, nbins_max, a, b), nontrivial=True, regime=key.replace("invariance-", "invariance/"))
+                    R.case(("inv", n, kind, nbins_max, a, b) + ekey, nontrivial=True, regime=key.replace("invariance-", "invariance/"))
                     c = {"check": "invariance", "n": n, "good_size": N, "temp_kind": kind, "nbins_max": nbins_max, "spacing_factor": spacing,
                          "numpy_subseed": sub, "a": a, "b": b, "data": small(x)}
+                    c.update(est_kw(loc, scl))
                     try:
-                        mf2 = MatchedFilter(x2, temp_kind=kind, nbins_max=nbins_max, spacing_factor=spacing)
+                        mf2 = MatchedFilter(x2, temp_kind=kind, nbins_max=nbins_max, spacing_factor=spacing, **est_kw(loc, scl))
                     except Exception as e:  # noqa: BLE001
                         R.fail(key + "-raises", f"MatchedFilter(a x + b) raised {type(e).__name__}", c)
                         continue
-                    s2 = float(np.asarray(mf2.zscores.scale).ravel()[0])
+                    s2 = float(np.asarray(mf2.zscores.scale).min())
                     tol = 4 * EPS * np.sqrt(n) * (float(np.abs(x2).max()) / s2 + float(np.abs(x).max()) / s0) + 2 * TOL * unit
+                    # the scale estimate itself moves with the float32 rounding of a x + b: by at most K eps32 max|x| for an estimator that is
+                    # K-Lipschitz in the largest sample perturbation (iqr 1.5, mad 3, biweight measured 1.6: allowed 4), which scales every
+                    # response by that relative amount.  Used for the new comparisons; the original S/N comparison of the default pair keeps tol
+                    tol_s = tol + 4 * EPS * (float(np.abs(x2).max()) / s2 + float(np.abs(x).max()) / s0) * max(float(np.abs(mf.convs).max()), float(np.abs(mf2.convs).max()))
+                    if not default_est:
+                        tol = tol_s
                     d = abs(float(mf2.snr) - float(mf.snr))
                     note("invariance", d / tol, n)
                     if not d <= tol:
@@ -215,30 +380,67 @@ def run(R: vlib.Run):
                     elif gap > 2 * tol and (mf2.peak_bin != mf.peak_bin or mf2.best_temp.width != mf.best_temp.width):
                         R.fail(key, "peak bin / best template change under x -> a x + b, a > 0 (maximum well separated)",
                                dict(c, peak=[mf.peak_bin, mf2.peak_bin], width=[float(mf.best_temp.width), float(mf2.best_temp.width)]))
+                    # the transformed run is a MatchedFilter run like any other: the whole of check_mf on the data a x + b ...
+                    c2 = dict(c, check="response of the transformed data float32(a) * data + float32(b)")
+                    if not check_mf(mf2, n, N, kind, nbins_max, spacing, x2, c2, loc, scl):
+                        continue
+                    # ... and every response, not only the largest, is unchanged (same bound: it is a bound on each inner product)
+                    dr = np.abs(mf2.convs.astype(np.float64) - mf.convs.astype(np.float64))
+                    note("invariance-rows", float(dr.max()) / tol_s, n)
+                    if not float(dr.max()) <= tol_s:
+                        i, t = np.unravel_index(int(np.argmax(dr)), dr.shape)
+                        R.fail(key, "a response value changes under x -> a x + b, a > 0",
+                               dict(c, template=int(i), bin=int(t), response=float(mf.convs[i, t]), response_transformed=float(mf2.convs[i, t]), tolerance=tol_s))
         # ---- noiseless boxcar of a bank width: recovered at its start bin with that width
-        nbm = min(32, n)
-        widths = [int(v) for v in MatchedFilter.get_box_width_spacing(nbm, 1.5)]
-        for w in widths:
-            if w >= n:
-                continue
-            ps = sorted({0, 1, n - w, n - w - 1, rng.randrange(0, n - w + 1)} if (quick and n > 40) else {0, 1, 2, n - w, n - w - 1, (n - w) // 2, rng.randrange(0, n - w + 1)})
-            for p in ps:
-                if p < 0 or p + w > n:
+        # families: (nbins_max, spacing_factor, location, scale, offset).  The first is the original one; further bank families
+        # (every width; fine and coarse ladders up to the data length) with an offset for short data and every seventh length, and the
+        # drawn estimator pair.  A noiseless pulse has scale estimate 0 for most estimators (unit-scale fallback): recovery is about the
+        # location of the maximum, which does not depend on the scale
+        fams = [(min(32, n), 1.5, "median", "iqr", 0.0)]
+        if n <= 40 or n % 7 == 0:
+            for nbm_, sp_ in ((n if n <= 100 else 64, 1.0), (min(n, 40), 1.2), (n, 2.0)):     # (n, 1.0): every width below n
+                fams.append((nbm_, sp_, "median", "iqr", float(rng.choice([-300.0, 1000.0]))))
+        if est2 is not None:
+            fams.append((min(32, n), 1.5) + est2 + (float(rng.choice([0.0, 40.0])),))
+        for ifam, (nbm, spf, loc, scl, off) in enumerate(fams):
+            widths = [int(v) for v in MatchedFilter.get_box_width_spacing(nbm, spf)]
+            if [float(v) for v in widths] != [float(v) for v in width_ladder("boxcar", nbm, spf)]:
+                R.fail("bank-width-ladder", "get_box_width_spacing is not the ladder 1, max(w + 1, floor(s w)), ... <= size_max",
+                       {"check": "boxcar recovery", "nbins_max": nbm, "spacing_factor": spf, "widths": widths})
+            for w in widths:
+                if w >= n:
                     continue
-                x = np.zeros(n, dtype=np.float32)
-                amp = float(rng.choice([1.0, 5.0, 250.0]))
-                x[p:p + w] = amp
-                R.case(("boxrec", n, w, p), nontrivial=n >= 8, regime=f"boxcar-recovery/{cls}")
-                c = {"check": "boxcar recovery", "n": n, "good_size": N, "width": w, "start_bin": p, "amplitude": amp, "nbins_max": nbm, "spacing_factor": 1.5,
-                     "reproduce": "x = zeros(n, float32); x[start_bin:start_bin+width] = amplitude; MatchedFilter(x, temp_kind='boxcar', nbins_max=nbins_max)"}
-                try:
-                    mf = MatchedFilter(x, temp_kind="boxcar", nbins_max=nbm, spacing_factor=1.5)
-                except Exception as e:  # noqa: BLE001
-                    R.fail(f"boxcar-recovery-raises-{cls}", f"MatchedFilter raised {type(e).__name__}: {str(e)[:100]}", c)
-                    continue
-                if mf.peak_bin != p or int(mf.best_temp.width) != w or tuple(mf.on_pulse) != (p, p + w):
-                    R.fail(f"boxcar-recovery-{cls}", "noiseless boxcar of a bank width is not recovered at its start bin with that width",
-                           dict(c, peak_bin=mf.peak_bin, best_width=float(mf.best_temp.width), on_pulse=[int(v) for v in mf.on_pulse], snr=float(mf.snr)))
+                if ifam == 0:
+                    ps = sorted({0, 1, n - w, n - w - 1, rng.randrange(0, n - w + 1)} if (quick and n > 40) else {0, 1, 2, n - w, n - w - 1, (n - w) // 2, rng.randrange(0, n - w + 1)})
+                else:
+                    ps = sorted({0, n - w, rng.randrange(0, n - w + 1)} if quick else {0, 1, n - w, n - w - 1, rng.randrange(0, n - w + 1)})
+                for p in ps:
+                    if p < 0 or p + w > n:
+                        continue
+                    x = np.zeros(n, dtype=np.float32)
+                    amp = float(rng.choice([1.0, 5.0, 250.0]))
+                    x[p:p + w] = amp
+                    if off:
+                        x += np.float32(off)                 # amplitude + offset are small integers: exact in float32
+                    if ifam == 0:
+                        R.case(("boxrec", n, w, p), nontrivial=n >= 8, regime=f"boxcar-recovery/{cls}")
+                        c = {"check": "boxcar recovery", "n": n, "good_size": N, "width": w, "start_bin": p, "amplitude": amp, "nbins_max": nbm, "spacing_factor": 1.5,
+                             "reproduce": "x = zeros(n, float32); x[start_bin:start_bin+width] = amplitude; MatchedFilter(x, temp_kind='boxcar', nbins_max=nbins_max)"}
+                    else:
+                        R.case(("boxrec", n, w, p, nbm, spf, loc, scl, off), nontrivial=n >= 8,
+                               regime="boxcar-recovery/bank-families" if (loc, scl) == ("median", "iqr") else f"boxcar-recovery/estimators/{loc}-{scl}")
+                        c = {"check": "boxcar recovery", "n": n, "good_size": N, "width": w, "start_bin": p, "amplitude": amp, "offset": off, "nbins_max": nbm,
+                             "spacing_factor": spf, "reproduce": "x = zeros(n, float32); x[start_bin:start_bin+width] = amplitude; x += offset; "
+                             "MatchedFilter(x, temp_kind='boxcar', nbins_max=nbins_max, spacing_factor=spacing_factor [, loc_method=, scale_method=])"}
+                        c.update(est_kw(loc, scl))
+                    try:
+                        mf = MatchedFilter(x, temp_kind="boxcar", nbins_max=nbm, spacing_factor=spf, **est_kw(loc, scl))
+                    except Exception as e:  # noqa: BLE001
+                        R.fail(f"boxcar-recovery-raises-{cls}", f"MatchedFilter raised {type(e).__name__}: {str(e)[:100]}", c)
+                        continue
+                    if mf.peak_bin != p or int(mf.best_temp.width) != w or tuple(mf.on_pulse) != (p, p + w):
+                        R.fail(f"boxcar-recovery-{cls}", "noiseless boxcar of a bank width is not recovered at its start bin with that width",
+                               dict(c, peak_bin=mf.peak_bin, best_width=float(mf.best_temp.width), on_pulse=[int(v) for v in mf.on_pulse], snr=float(mf.snr)))
     # ---------------- the public kernel on general banks --------------------------------------------------------------
     # "For every template in the bank": the response of a template is a function of the data and of that template only.
     # MatchedFilter only ever builds banks of non-decreasing template length; kernels.convolve_templates (the mechanism the
@@ -438,6 +640,30 @@ Eval vm_compute in (length cases, map fst (filter (fun p => snd p =? 2) (combine
             M, nc, i, t, mx = am[int(v)]
             R.disagree("Model np_argmax / np_unravel_index differ from NumPy", {"matrix": M, "numpy": [i, t, mx]})
     R.extra_cov["correspondence_cases"] = len(cases) + len(am)
+
+    # ---------------- which of the four source forms of Props/C13.v (C13_source_form) the regenerated kernel has -------------------
+    # C13_response_formula_exact_length (every data length, odd ones included) has the hypothesis src_is nopad ilen_given; the other
+    # three forms only have the even-length / padded statements.  Each form holds by reflexivity or not at all.
+    forms = [("cpad/ilen_default", "(cpad F) (ilen_default F)"), ("cpad/ilen_given", "(cpad F) (ilen_given F)"),
+             ("nopad/ilen_default", "nopad (ilen_default F)"), ("nopad/ilen_given", "nopad (ilen_given F)")]
+    flines = ["From Coq Require Import ZArith List Bool.",
+              "Require Import SPP.Base.Rt SPP.Model.C12_np SPP.Model.C12_conv SPP.Model.C13_np SPP.Gen.Kernels SPP.Gen.MatchedFilter SPP.Model.C13_mf SPP.Proofs.C13_mf.",
+              "Open Scope Z_scope.", "Goal True."]
+    for i, (_, args) in enumerate(forms):
+        flines.append(f"  tryif (assert (forall (F : fft_ops) (Nm : norm_ops), src_is F Nm {args}) by (intros F Nm d b r; reflexivity)) "
+                      f"then idtac \"C13FORM {i} yes\" else idtac \"C13FORM {i} no\".")
+    flines += ["  exact I.", "Qed."]
+    rc, out = vlib.coq_run("c13_form", "\n".join(flines), timeout=300)
+    got = dict((int(i), v == "yes") for i, v in re.findall(r"C13FORM (\d) (yes|no)", out))
+    if rc != 0 or len(got) != len(forms):
+        R.red.append("source form: Corr/c13_form did not evaluate: " + out[-400:])
+    else:
+        held = [forms[i][0] for i in sorted(got) if got[i]]
+        R.extra_cov["source_form"] = held
+        if "nopad/ilen_given" not in held:
+            R.red.append("source form: the regenerated convolve_templates is of the form " + (", ".join(held) or "(none of the four)") +
+                         ", not nopad/ilen_given: the hypothesis of C13_response_formula_exact_length does not hold for the current source, so the "
+                         "response formula is not established for odd data lengths (only C13_response_formula_partial applies)")
     return R
 
 
